@@ -502,6 +502,7 @@ func c05Extras(c *Check) {
 		c.Result(ok, "C05.E", "acceptReady marks the handed-out state as in progress", fnName(acceptReady), p.Pos(acceptReady.Pos()), "raftLog.acceptUnstable() on every path", "")
 	}
 	storageAppendCarries(c)
+	needAppendFormula(c, "C05.W")
 }
 
 // storageAppendCarries — C05.E (async storage writes): MsgStorageAppend carries everything the
